@@ -21,6 +21,7 @@ NT_CUT = SPIN_CUT + ['allocate_long_table', '25extend_table_if_necessaryERPSt6at
 UNITS = {
   'seg': dict(wrapper='w_seg.cpp', mode='seq', selftest=True, cut=['13internal_growI']),
 }
+UNITS['fault'] = dict(wrapper='w_fault.cpp', mode='seq', exceptions=True, ptratomics=True, prune=True, cut=['14atomic_backoff5pauseEv'])
 KIND = {'gb': 0, 'pb': 1, 'gtal': 2}
 def unit(kinds, table, K=None):
     """thread unit for a tuple of operation kinds; table=False: scenarios stay below index 8 (NT_CUT), True: real table extension"""
@@ -67,6 +68,14 @@ HARNESSES += [
   grow('pb_gb', ('pb', 'gb'), False, 2, [sc2(p, m, 4, **({'PROBE': 0} if p else {})) for p, m in ((0, 0), (1, 0), (3, 0), (3, 1))], tiers=('thorough',), timeout=3600),
   grow('pb2_table', ('pb', 'pb'), True, 1, [sc2(7, 0, 2, PROBE=0, TABW=8), sc2(8, 0, 2, PROBE=0, TABW=8), sc2(7, 1, 2, PROBE=0, TABW=8)], tiers=('thorough',), timeout=3600),
   grow('gtal_pb', ('gtal', 'pb'), False, 1, [sc2(1, 0, 4, PROBE=0), sc2(0, 0, 4)], tiers=('thorough',), timeout=3600),
+]
+def fsc(pre, op1, a1, fk, kmax, op2='pb', a2=0, nfollow=2, cap=32, maxidx=12, **kw):
+    d = dict(PRE=pre, OP1=KIND[op1], ARG1=a1, FK=fk, KMAX=kmax, OP2=KIND[op2], ARG2=a2, NFOLLOW=nfollow, CAP=cap, MAXIDX=maxidx, TABW=8); d.update(kw); return d
+HARNESSES += [
+  dict(name='fault_seq', unit='fault', harness='h_fault.c', defines={'memset': 'vp_memset'}, cbmc=['--unwind', '30', '--object-bits', '10'], timeout=900,
+       native_cflags=['-fno-sanitize=null'],
+       scenarios=[fsc(1, 'gb', 6, 1, 6)],
+       desc='fault injection, single thread', bounds={}),
 ]
 MANIFEST = dict(
   level_text='Bounded symbolic execution of the real concurrent_vector / segment_table code. Full width (every 64-bit index / size, SAT-decided): segment_index_of/base/size tile the index space and round-trip, first-block and embedded-table formulas, number_of_elements_in_segment, iterator ++/-- cache validity, grow_to_at_least claims exactly [old size, n). Thread mode (Lazy-CSeq encoding, solver-owned schedules): 2-3 threads running real push_back / grow_by / grow_to_at_least on one pre-grown vector: returned ranges disjoint and tiling [old size, size), every element constructed exactly once with the requested value inside a live allocated segment, element addresses stable, no call waits forever.',
